@@ -133,7 +133,7 @@ CHECKS = {
                         "memory datastore (sqlite isolation is covered by C13/C31 store-id sharing)"],
     },
     "C20": {
-        "runs": [_r("TestC20", 600, 10000, race=True, qt=1800, tt=7000)],
+        "runs": [_r("TestC20", 600, 10000, qt=1800, tt=7000)],
         "rule": "case = model family (recursive userset / recursive TTU / mutually recursive types under an exclusion), chain length 3-40 optionally closed "
                 "into a cycle, fan-out 0-300, Check engine (default/weighted), ListObjects engine (classic/weighted/pipeline), deadline 2-300 ms, caches on in "
                 "1/4 of the cases, and 2-6 calls over Check, BatchCheck, ListObjects, StreamedListObjects, ListUsers, Expand, half of them cancelled by the "
